@@ -364,7 +364,8 @@ static void episode(int nops, int maxpool)
 			op_srcrm(1, vh_rn(3));
 			size = size * 2 / 3;
 		} else if (c < 87) {
-			reload_sequence();
+			if (!getenv("VH_NO_RELOAD"))
+				reload_sequence();
 		} else {
 			rand_lookup(1);
 		}
@@ -549,7 +550,7 @@ int main(int argc, char **argv)
 		for (int e = 0; e < episodes; e++) {
 			bool big = (e % 5 == 4);
 
-			if (e % 5 == 2 || e % 5 == 0) {
+			if ((e % 5 == 2 || e % 5 == 0) && !getenv("VH_NO_RELOAD")) {
 				resize_episode();
 				continue;
 			}
